@@ -824,8 +824,14 @@ class NetworkGraph(AbstractBaseIR):
                         else:
                             post_var = info['var']
                             post_op = info['op']
-                            expr_map[ev] = f'broadcast_post({post_var})'
-                            source_vars[post_var] = {'sources': [post_op], 'node': tnode, 'var': post_var}
+                            # a post-synaptic variable that carries the same name as the source variable of another
+                            # population needs a name of its own, otherwise it replaces the source
+                            post_key = post_var
+                            known = source_vars.get(post_key)
+                            if known is not None and (known.get('node'), known.get('var')) != (tnode, post_var):
+                                post_key = f'{post_var}_post{i}'
+                            expr_map[ev] = f'broadcast_post({post_key})'
+                            source_vars[post_key] = {'sources': [post_op], 'node': tnode, 'var': post_var}
 
                     if edge_de_sv_names:
                         # case 0c: dynamic edge
